@@ -6,6 +6,8 @@
 use bourse_verif_harness::bookdrive::run_fixed;
 use bourse_verif_harness::gen::{gen_and_run, Gen};
 use bourse_verif_harness::proto::{BookHeader, Op};
+use bourse_verif_harness::envdrive::*;
+use bourse_de::{Env, MarketEnv};
 use rand::Rng;
 use rand_xoshiro::rand_core::SeedableRng;
 use rand_xoshiro::Xoroshiro128StarStar;
@@ -157,6 +159,220 @@ fn book_replay(path: &str) {
     let _ = std::fs::remove_dir_all(&scratch);
 }
 
+macro_rules! with_env_levels {
+    ($l:expr, $body:ident, $($args:expr),*) => {
+        match $l {
+            1 => $body::<1>($($args),*),
+            2 => $body::<2>($($args),*),
+            3 => $body::<3>($($args),*),
+            5 => $body::<5>($($args),*),
+            10 => $body::<10>($($args),*),
+            24 => $body::<24>($($args),*),
+            other => panic!("unsupported level count {}", other),
+        }
+    };
+}
+
+fn run_env_hist<const L: usize>(h: &EnvHeader, g: Option<&mut EGen>, fixed: &[EOp], rounds: usize, w: &mut BufWriter<std::io::StdoutLock>) {
+    if h.kind == "env" {
+        let env = EnvW::<L>(Env::<L>::new(h.t0, h.ticks[0], h.step, h.trading), h.step);
+        run_env(h, env, g, fixed, rounds, w);
+    } else {
+        macro_rules! go { ($a:literal) => {{
+            let ticks: [u32; $a] = std::array::from_fn(|i| h.ticks[i]);
+            let env = MEnvW::<$a, L>(MarketEnv::<$a, L>::new(h.t0, ticks, h.step, h.trading), h.step);
+            run_env(h, env, g, fixed, rounds, w);
+        }}; }
+        match h.ticks.len() { 1 => go!(1), 2 => go!(2), 3 => go!(3), 4 => go!(4), n => panic!("unsupported asset count {}", n) }
+    }
+}
+
+fn run_market_hist<const L: usize>(h: &MarketHeader, g: Option<&mut MGen>, fixed: &[MOp], n_ops: usize, scratch: std::path::PathBuf, w: &mut BufWriter<std::io::StdoutLock>) {
+    match h.ticks.len() {
+        1 => run_market::<1, L, _>(h, g, fixed, n_ops, scratch, w),
+        2 => run_market::<2, L, _>(h, g, fixed, n_ops, scratch, w),
+        3 => run_market::<3, L, _>(h, g, fixed, n_ops, scratch, w),
+        4 => run_market::<4, L, _>(h, g, fixed, n_ops, scratch, w),
+        n => panic!("unsupported asset count {}", n),
+    }
+}
+
+/// env-gen --kind env|menv --profile P --seed S --hists N --rounds R [--levels ..] [--assets 1,2,3] [--ticks ..]
+fn env_gen(m: &HashMap<String, String>) {
+    let kind = m.get("kind").cloned().unwrap_or_else(|| "env".into());
+    let profile = m.get("profile").cloned().unwrap_or_else(|| "plain".into());
+    let seed: u64 = m.get("seed").and_then(|s| s.parse().ok()).unwrap_or(1);
+    let hists: usize = m.get("hists").and_then(|s| s.parse().ok()).unwrap_or(10);
+    let rounds: usize = m.get("rounds").and_then(|s| s.parse().ok()).unwrap_or(8);
+    let levels: Vec<usize> = m.get("levels").map(|s| list(s)).unwrap_or_else(|| vec![3]);
+    let assets: Vec<usize> = m.get("assets").map(|s| list(s)).unwrap_or_else(|| vec![1, 2, 3]);
+    let ticks: Vec<u32> = m.get("ticks").map(|s| list(s)).unwrap_or_else(|| vec![1, 2, 3, 5, 10]);
+    let out = std::io::stdout();
+    let mut w = BufWriter::with_capacity(1 << 20, out.lock());
+    for hi in 0..hists {
+        let mut rng = Xoroshiro128StarStar::seed_from_u64(seed.wrapping_mul(0x9E3779B97F4A7C15).wrapping_add(hi as u64) ^ 0x5EED);
+        let l = levels[rng.gen_range(0..levels.len())];
+        let na = if kind == "env" { 1 } else { assets[rng.gen_range(0..assets.len())] };
+        let tks: Vec<u32> = (0..na).map(|_| ticks[rng.gen_range(0..ticks.len())]).collect();
+        let step: u64 = if profile == "overfull" { [1u64, 2, 5][rng.gen_range(0..3)] } else { [1u64, 3, 8, 16, 100][rng.gen_range(0..5)] };
+        let trading = if profile == "toggle" { rng.gen::<f64>() < 0.6 } else { rng.gen::<f64>() < 0.9 };
+        let t0: u64 = rng.gen_range(0..50);
+        let env_seed: u64 = rng.gen_range(0..1_000_000);
+        let h = EnvHeader { id: format!("{}{}-{}-{}", kind, profile, seed, hi), profile: profile.clone(), kind: kind.clone(),
+            seed: env_seed, t0, ticks: tks.clone(), step, trading, levels: l };
+        let np = if rng.gen::<f64>() < 0.3 { 6 } else { 3 };
+        let base = rng.gen_range(1..20);
+        let vols = if rng.gen::<f64>() < 0.5 { vec![1, 2, 3] } else { vec![1, 2, 5, 10] };
+        let mut g = EGen { rng, profile: profile.clone(), ticks: tks, base, n_prices: np, vols, step, trading };
+        with_env_levels!(l, run_env_hist, &h, Some(&mut g), &[], rounds, &mut w);
+    }
+    w.flush().unwrap();
+}
+
+fn market_gen(m: &HashMap<String, String>) {
+    let profile = m.get("profile").cloned().unwrap_or_else(|| "plain".into());
+    let seed: u64 = m.get("seed").and_then(|s| s.parse().ok()).unwrap_or(1);
+    let hists: usize = m.get("hists").and_then(|s| s.parse().ok()).unwrap_or(10);
+    let n_ops: usize = m.get("ops").and_then(|s| s.parse().ok()).unwrap_or(80);
+    let levels: Vec<usize> = m.get("levels").map(|s| list(s)).unwrap_or_else(|| vec![3]);
+    let assets: Vec<usize> = m.get("assets").map(|s| list(s)).unwrap_or_else(|| vec![1, 2, 3, 4]);
+    let ticks: Vec<u32> = m.get("ticks").map(|s| list(s)).unwrap_or_else(|| vec![1, 2, 3, 5, 10]);
+    let out = std::io::stdout();
+    let mut w = BufWriter::with_capacity(1 << 20, out.lock());
+    let scratch = scratch_dir();
+    for hi in 0..hists {
+        let mut rng = Xoroshiro128StarStar::seed_from_u64(seed.wrapping_mul(0x9E3779B97F4A7C15).wrapping_add(hi as u64) ^ 0xA55E7);
+        let l = levels[rng.gen_range(0..levels.len())];
+        let na = assets[rng.gen_range(0..assets.len())];
+        let tks: Vec<u32> = (0..na).map(|_| ticks[rng.gen_range(0..ticks.len())]).collect();
+        let trading = rng.gen::<f64>() < 0.85;
+        let t0: u64 = rng.gen_range(0..50);
+        let h = MarketHeader { id: format!("market{}-{}-{}", profile, seed, hi), profile: profile.clone(), t0, ticks: tks.clone(), trading, levels: l };
+        let base = rng.gen_range(1..20);
+        let vols = if rng.gen::<f64>() < 0.5 { vec![1, 2, 3] } else { vec![1, 2, 5, 10] };
+        let mut g = MGen { rng, profile: profile.clone(), ticks: tks, base, n_prices: 3, vols, t: t0, trading };
+        with_env_levels!(l, run_market_hist, &h, Some(&mut g), &[], n_ops, scratch.clone(), &mut w);
+    }
+    w.flush().unwrap();
+    let _ = std::fs::remove_dir_all(&scratch);
+}
+
+/// trunc --seed S --hists N --ops M : every strict prefix of a snapshot file must be rejected with
+/// an error (no panic, no successful load).
+fn trunc_one<const L: usize>(h: &BookHeader, g: &mut Gen, n_ops: usize, scratch: std::path::PathBuf, pretty: bool) -> (usize, Vec<String>) {
+    use bourse_book::OrderBook;
+    let mut sink = std::io::sink();
+    let live = bourse_verif_harness::gen::gen_and_run_keep::<L, _>(h, g, n_ops, scratch.clone(), &mut sink);
+    std::fs::create_dir_all(&scratch).unwrap();
+    let path = scratch.join("trunc_full.json");
+    live.book.save_json(&path, pretty).unwrap();
+    let bytes = std::fs::read(&path).unwrap();
+    let tpath = scratch.join("trunc_cut.json");
+    let mut bad = Vec::new();
+    for cut in 0..bytes.len() {
+        std::fs::write(&tpath, &bytes[..cut]).unwrap();
+        let r = std::panic::catch_unwind(|| OrderBook::<L>::load_json(&tpath));
+        match r {
+            Ok(Err(_)) => {}
+            Ok(Ok(_)) => bad.push(format!("loaded:{}", cut)),
+            Err(_) => bad.push(format!("panic:{}", cut)),
+        }
+    }
+    // the untruncated file must load
+    if OrderBook::<L>::load_json(&path).is_err() { bad.push("full_file_rejected".into()); }
+    // market file (2 assets sharing the same book state is not constructible: use a fresh 2-asset market with orders)
+    {
+        use bourse_book::types::Side;
+        use bourse_book::Market;
+        let mut m: Market<2, L> = Market::new(h.t0, [h.tick, h.tick], true);
+        for (i, o) in live.book.get_orders().iter().enumerate().take(12) {
+            let is_bid = matches!(o.side, Side::Bid);
+            let _ = m.create_and_place_order(i % 2, if is_bid { Side::Bid } else { Side::Ask }, o.start_vol, o.trader_id,
+                                             if (is_bid && o.price == u32::MAX) || (!is_bid && o.price == 0) { None } else { Some(o.price) });
+        }
+        let mpath = scratch.join("trunc_market.json");
+        m.save_json(&mpath, pretty).unwrap();
+        let mb = std::fs::read(&mpath).unwrap();
+        for cut in 0..mb.len() {
+            std::fs::write(&tpath, &mb[..cut]).unwrap();
+            let r = std::panic::catch_unwind(|| Market::<2, L>::load_json(&tpath));
+            match r {
+                Ok(Err(_)) => {}
+                Ok(Ok(_)) => bad.push(format!("market_loaded:{}", cut)),
+                Err(_) => bad.push(format!("market_panic:{}", cut)),
+            }
+        }
+        if Market::<2, L>::load_json(&mpath).is_err() { bad.push("market_full_file_rejected".into()); }
+        return (bytes.len() + mb.len(), bad);
+    }
+}
+
+fn trunc(m: &HashMap<String, String>) {
+    let seed: u64 = m.get("seed").and_then(|s| s.parse().ok()).unwrap_or(1);
+    let hists: usize = m.get("hists").and_then(|s| s.parse().ok()).unwrap_or(10);
+    let n_ops: usize = m.get("ops").and_then(|s| s.parse().ok()).unwrap_or(30);
+    let scratch = scratch_dir();
+    for hi in 0..hists {
+        let mut rng = Xoroshiro128StarStar::seed_from_u64(seed.wrapping_mul(0x9E3779B97F4A7C15).wrapping_add(hi as u64) ^ 0x7A11);
+        let tick = [1u32, 2, 5][rng.gen_range(0..3)];
+        let trading = rng.gen::<f64>() < 0.8;
+        let h = BookHeader { id: format!("trunc-{}-{}", seed, hi), profile: "toggle".into(), t0: 0, tick, trading, levels: if hi % 2 == 0 { 1 } else { 10 } };
+        let mut g = Gen { rng, profile: "toggle".into(), tick, base: 3, n_prices: 4, vols: vec![1, 2, 5], t: 0, trading };
+        let pretty = hi % 3 == 0;
+        let (len, bad) = if hi % 2 == 0 { trunc_one::<1>(&h, &mut g, n_ops, scratch.clone(), pretty) } else { trunc_one::<10>(&h, &mut g, n_ops, scratch.clone(), pretty) };
+        println!("T {} offsets={} pretty={} {}", h.id, len, pretty, if bad.is_empty() { "ok".to_string() } else { format!("BAD:{}", bad.join(",")) });
+    }
+    let _ = std::fs::remove_dir_all(&scratch);
+}
+
+enum Hist {
+    Book(BookHeader, Vec<Op>),
+    Env(EnvHeader, Vec<EOp>),
+    Market(MarketHeader, Vec<MOp>),
+}
+
+/// replay FILE — any mix of book / env / menv / market histories (`H` and `O` lines)
+fn replay(path: &str) {
+    let f = std::fs::File::open(path).expect("open replay file");
+    let rd = std::io::BufReader::new(f);
+    let out = std::io::stdout();
+    let mut w = BufWriter::with_capacity(1 << 20, out.lock());
+    let scratch = scratch_dir();
+    let mut cur: Option<Hist> = None;
+    let flush = |cur: &mut Option<Hist>, w: &mut BufWriter<std::io::StdoutLock>| {
+        match cur.take() {
+            Some(Hist::Book(h, ops)) => { let l = h.levels; with_levels!(l, run_fixed, &h, &ops, scratch.clone(), w); }
+            Some(Hist::Env(h, ops)) => { let l = h.levels; with_env_levels!(l, run_env_hist, &h, None, &ops, 0, w); }
+            Some(Hist::Market(h, ops)) => { let l = h.levels; with_env_levels!(l, run_market_hist, &h, None, &ops, 0, scratch.clone(), w); }
+            None => {}
+        }
+    };
+    for line in rd.lines() {
+        let line = line.unwrap();
+        let toks: Vec<&str> = line.split_whitespace().collect();
+        if toks.is_empty() { continue; }
+        match toks[0] {
+            "H" => {
+                flush(&mut cur, &mut w);
+                if let Some(h) = BookHeader::parse(&toks) { cur = Some(Hist::Book(h, Vec::new())); }
+                else if let Some(h) = EnvHeader::parse(&toks) { cur = Some(Hist::Env(h, Vec::new())); }
+                else if let Some(h) = MarketHeader::parse(&toks) { cur = Some(Hist::Market(h, Vec::new())); }
+                else { eprintln!("bad header: {}", line); }
+            }
+            "O" => match cur.as_mut() {
+                Some(Hist::Book(_, ops)) => { if let Some(op) = Op::parse(&toks[1..]) { ops.push(op) } else { eprintln!("bad op: {}", line) } }
+                Some(Hist::Env(_, ops)) => { if let Some(op) = EOp::parse(&toks[1..]) { ops.push(op) } else { eprintln!("bad op: {}", line) } }
+                Some(Hist::Market(_, ops)) => { if let Some(op) = MOp::parse(&toks[1..]) { ops.push(op) } else { eprintln!("bad op: {}", line) } }
+                None => {}
+            },
+            _ => {}
+        }
+    }
+    flush(&mut cur, &mut w);
+    w.flush().unwrap();
+    let _ = std::fs::remove_dir_all(&scratch);
+}
+
 fn main() {
     std::panic::set_hook(Box::new(|_| {}));
     let args: Vec<String> = std::env::args().collect();
@@ -167,7 +383,11 @@ fn main() {
     let m = args_map(&args[2..]);
     match args[1].as_str() {
         "book-gen" => book_gen(&m),
-        "book-replay" => book_replay(&args[2]),
+        "book-replay" => replay(&args[2]),
+        "replay" => replay(&args[2]),
+        "env-gen" => env_gen(&m),
+        "trunc" => trunc(&m),
+        "market-gen" => market_gen(&m),
         other => {
             eprintln!("unknown subcommand {}", other);
             std::process::exit(2);
